@@ -30,7 +30,12 @@ Inductive case :=
           (resp_hdr : list byte)
 (* real client against a raw response header; req_hdr is what the client declared *)
 | CRawResp (c : client_cfg) (vals : list (list byte)) (info_tx : N) (ci : installed)
-           (req_hdr : list byte).
+           (req_hdr : list byte)
+(* several POST /auth on ONE connection against the real server: per request the Hysteria-CC-RX values and whether the
+   Authenticator accepts; observed per request: status 233?, the response header, the controller on the connection
+   right after the response; at the end every Authenticate tx and every Connect tx, in order *)
+| CReauth (s : server_cfg) (rqs : list (list (list byte) * bool))
+          (obs : list (bool * list byte * installed)) (auth_txs connect_txs : list N).
 
 Definition inst_eqb (a b : installed) : bool :=
   match a, b with
@@ -41,6 +46,21 @@ Definition inst_eqb (a b : installed) : bool :=
 
 Definition hdr1_eqb (vals : list (list byte)) (h : list byte) : bool :=
   match vals with [v] => bytes_eqb v h | _ => false end.
+
+Fixpoint all2 {A B} (f : A -> B -> bool) (a : list A) (b : list B) : bool :=
+  match a, b with
+  | [], [] => true
+  | x :: a', y :: b' => f x y && all2 f a' b'
+  | _, _ => false
+  end.
+
+Definition reply_eqb (m : reply * installed) (o : bool * list byte * installed) : bool :=
+  let '(ok, hdr, i) := o in
+  inst_eqb (snd m) i &&
+  match fst m with
+  | R233 r => ok && hdr1_eqb (resp_to_header r) hdr
+  | RMasq => negb ok
+  end.
 
 Definition check (c : case) : bool :=
   match c with
@@ -67,6 +87,10 @@ Definition check (c : case) : bool :=
       let co := client_connect c vals in
       (co_info_tx co =? itx) && inst_eqb (co_installed co) ci &&
       hdr1_eqb (req_to_header (c_max_rx c)) qh
+  | CReauth s rqs obs atxs ctxs =>
+      server_cfg_ok s &&
+      (let (st, rps) := serve_run s conn_init rqs in
+       all2 reply_eqb rps obs && N_list_eqb (cs_authcalls st) atxs && N_list_eqb (cs_connects st) ctxs)
   end.
 
 Definition mismatches (l : list case) : list nat := mism_from check 0 l.
